@@ -25,8 +25,25 @@ def oracle(chk):
     bases = [kernels.ExpSquared(jnp.asarray(1.0)), kernels.Matern32(jnp.asarray(0.8)),
              kernels.Matern52(jnp.asarray(1.3), distance=kernels.distance.L2Distance()),
              kernels.RationalQuadratic(alpha=jnp.asarray(1.5))]
+    # the parameterised Cholesky constructor in every dimension 1..6 (row-major strict lower triangle), layout and kernel value
+    for d in range(1, 7):
+        diag = rng.uniform(0.5, 2, size=d)
+        off = rng.normal(size=(d * (d - 1)) // 2)
+        Lp = np.diag(diag)
+        kk = 0
+        for i in range(d):
+            for j in range(i):
+                Lp[i, j] = off[kk]
+                kk += 1
+        x1, x2 = rng.normal(size=d), rng.normal(size=d)
+        es = kernels.ExpSquared(jnp.asarray(1.0))
+        cp = transforms.Cholesky.from_parameters(jnp.asarray(diag), jnp.asarray(off), es)
+        ck(f"from_parameters/layout[d={d}]", np.asarray(cp.factor), Lp, diagonal=diag.tolist(), off_diagonal=off.tolist())
+        dd = x1 - x2
+        ck(f"from_parameters/mahalanobis[d={d}]", cp.evaluate(jnp.asarray(x1), jnp.asarray(x2)), np.exp(-0.5 * dd @ np.linalg.solve(Lp @ Lp.T, dd)), 1e-9,
+           diagonal=diag.tolist(), off_diagonal=off.tolist(), x1=x1.tolist(), x2=x2.tolist())
     for rep in range(4 if quick else 30):
-        d = int(rng.integers(2, 5))
+        d = int(rng.integers(2, 5)) if rep >= 3 else 2 + rep      # every dimension 2..4 in every tier
         x1, x2 = rng.normal(size=d), rng.normal(size=d)
         J1, J2 = jnp.asarray(x1), jnp.asarray(x2)
         base = bases[rep % len(bases)]
